@@ -10,6 +10,7 @@
 pub mod coherent;
 pub mod mutate;
 pub mod oracle;
+pub mod packed;
 pub mod registry;
 pub mod rules;
 pub mod special;
@@ -769,6 +770,7 @@ pub fn run(ctx: &mut Ctx, args: &Args) {
     let entries = registry::registry();
     if only_special {
         special::run_special(ctx);
+        packed::run_packed(ctx);
         return;
     }
     let t0 = ctx.elapsed_s();
@@ -905,6 +907,7 @@ pub fn run(ctx: &mut Ctx, args: &Args) {
 
     if !only_main {
         special::run_special(ctx);
+        packed::run_packed(ctx);
     }
 
     // optional / version-gated fields: declared vs carried by a consistent,
@@ -959,6 +962,11 @@ fn replay(ctx: &mut Ctx, _args: &Args, rec: &Value, _bytes: Option<&[u8]>) {
     let c = if d["case"].is_object() { &d["case"] } else { d };
     let name = c["type"].as_str().unwrap_or("");
     if special::replay(ctx, rec) {
+        return;
+    }
+    if packed::replay(ctx, c) {
+        ctx.nontrivial(1);
+        ctx.nontrivial(2);
         return;
     }
     let Some(ti) = entries.iter().position(|e| e.name == name) else {
